@@ -537,7 +537,15 @@ pub fn run(ctx: &Ctx) -> Result<(), String> {
     // its own loopback address, one request each; then the hand-off; the snapshots in the queue
     // (capacity 2, as for one worker) together hold every address and every event
     {
-        let ns: Vec<usize> = ctx.tier.pick(vec![1023, 1025, 2049, 3073], vec![1, 1023, 1024, 1025, 2047, 2048, 2049, 3073, 5000]);
+        let mut ns: Vec<usize> = ctx.tier.pick(vec![1023, 1025, 2049, 3073], vec![1, 1023, 1024, 1025, 2047, 2048, 2049, 3073, 5000]);
+        // one socket per client: stay below the limit of open files of this environment
+        let nofile = unsafe {
+            let mut rl = libc::rlimit { rlim_cur: 0, rlim_max: 0 };
+            if libc::getrlimit(libc::RLIMIT_NOFILE, &mut rl) == 0 { rl.rlim_cur as usize } else { 1024 }
+        };
+        let skipped: Vec<usize> = ns.iter().cloned().filter(|n| n + 400 > nofile).collect();
+        ns.retain(|n| n + 400 <= nofile);
+        ctx.cov("many_addresses_clients", json!({"run": ns, "skipped_for_open_file_limit": skipped, "open_file_limit": nofile}));
         for n in ns {
             let r = crate::util::on_named_thread("worker-0", move || -> Result<Option<String>, String> {
                 let queue = Arc::new(StatsQueue::new(2));
